@@ -9,10 +9,32 @@ def load(F):
 
 
 def vm_effects(F):
+    """per-opcode stack effects derived from symbolic execution of the dispatch arms (follows closures and iterator chains):
+    opcode -> set of (fixed pops, pops per counted element, pushes) in the same form as vmtable.EXPECTED uses"""
+    import semtables
     vm = vmtable.VM(F)
     eff = {}
     for name in vm.arms:
-        eff[name] = vm.effects(name)
+        rows = semtables.arm_paths(F, vm, name)
+        if not rows:
+            eff[name] = set()
+            continue
+        pairs = set((sum(1 for e in ev if e[0] == "pop"), sum(1 for e in ev if e[0] == "push")) for _, ev in rows)
+        pops = sorted(set(a for a, _ in pairs))
+        pushes = set(b for _, b in pairs)
+        if len(pushes) != 1:
+            eff[name] = set((a, 0, b) for a, b in pairs)
+            eff[name].add((-1, -1, -1))         # marks disagreement between paths
+            continue
+        p = next(iter(pushes))
+        if len(pops) == 1:
+            eff[name] = {(pops[0], 0, p)}
+        else:
+            step = pops[1] - pops[0]
+            if all(pops[i + 1] - pops[i] == step for i in range(len(pops) - 1)):
+                eff[name] = {(pops[0], 0, p), (pops[0], step, p)}
+            else:
+                eff[name] = set((a, 0, p) for a in pops) | {(-1, -1, -1)}
     return vm, eff
 
 
@@ -183,3 +205,57 @@ def variant_of_child(path, k):
 def token_of(path):
     """Token variants matched on the path, in order"""
     return [c[2] for c in path["cond"] if c[0] == "variant" and c[1].endswith("Token")]
+
+
+# ------------------------------------------------------------------------------------ symbolic value of straight-line templates
+
+def vm_semantics(F, vm, names):
+    """opcode -> list of (number of pops, push expression over pop1..popN) from symbolic execution of the VM arms"""
+    import semtables
+    out = {}
+    for n in names:
+        rows = semtables.arm_paths(F, vm, n)
+        sem = []
+        for preds, ev in rows or []:
+            pops = sum(1 for e in ev if e[0] == "pop")
+            pushes = [e[1] for e in ev if e[0] == "push"]
+            if len(pushes) == 1:
+                sem.append((pops, pushes[0]))
+        out[n] = sem
+    return out
+
+
+def sym_value(items, sem, eff):
+    """value a jump-free template leaves on the stack, as an expression over its children c0, c1, ..; None if not straight-line"""
+    stack = []
+    for it in items:
+        k = it["k"]
+        if k == "code":
+            stack.append("c%d" % it["child"])
+        elif k == "op":
+            name = it["name"]
+            if name == "Push":
+                stack.append(it["args"][0] if it.get("args") else "?")
+                continue
+            e = effect_of(name, eff)
+            if e is None or name not in sem:
+                return None
+            f, l, p = e
+            cnt = int_arg(it) if l else 0
+            if l and cnt is None:
+                return None
+            pops = f + l * cnt
+            cand = sorted(set(x for (n, x) in sem[name] if n == pops))
+            if len(cand) != 1 or len(stack) < pops:
+                return None
+            expr = cand[0]
+            vals = [stack.pop() for _ in range(pops)]       # vals[0] = pop1
+            # substitute highest index first so that pop1 does not clobber pop10
+            for i in range(pops, 0, -1):
+                expr = re.sub(r"\bpop%d\b" % i, vals[i - 1].replace("\\", "\\\\"), expr)
+            stack.append(expr)
+        else:
+            return None
+    if len(stack) != 1:
+        return None
+    return stack[0]
